@@ -593,7 +593,7 @@ int main(int argc, char** argv) {
     VT_GUARD(ub, ok = load_time_zone(key, &c.tz));
     emit(c, "{\"e\":\"Load\",\"z\":" + std::to_string(c.z) + ",\"name\":" + vt::jstr(name) + ",\"bytes\":" +
                 bytes_json(bytes) + ",\"desc\":" + bytes_json(ok && !ub ? c.tz.description() : std::string()) + ",\"ok\":" + (ok && !ub ? "1" : "0") + ",\"isutc\":" +
-                (c.tz == utc_time_zone() ? "1" : "0") + ",\"ub\":" + std::to_string(ub) + "}");
+                (c.tz == utc_time_zone() ? "1" : "0") + ",\"ub\":" + std::to_string(ub) + ",\"relaxed\":" + (name.compare(0, 10, "gen/desig-") == 0 ? "1" : "0") + "}");
     if (fam_twin) {
       // the outcome is a function of the bytes alone: a second load of the same bytes under another
       // name must agree in verdict, description and answers
